@@ -194,4 +194,23 @@ def run(ctx, config):
     if not unlinkers:
         r3.brk("no function unlinking watchers found")
     rules.append(r3)
+    # ---- who may move the traversal cursor
+    r4 = Rule("C45-cursor", "K2", "base->watcher_next (the cursor shared by the prepare and the check traversal) is written only by the traversals and by evwatch_free's repair", floor=3)
+    for g in P.all_fns:
+        for el, lhs, op, rhs in g.stores():
+            if fields_of(lhs)[-1:] != ["event_base.watcher_next"]:
+                continue
+            if g.name == "event_base_loop":
+                ok, why = True, "traversal"
+            elif g.name == "evwatch_free":
+                gs = [negate_truth(c, t) for c, t, _ in g.guards_at(el.bid)]
+                ok = any(t and is_e(strip(c), "bin") and strip(c)[1] == "==" and any(is_e(q, "fld") and q[2] == "event_base.watcher_next" for q in walk(c)) for c, t in gs)
+                why = "repair when the freed watcher is the cursor"
+            else:
+                ok, why = False, None
+            r4.inst((g.name, el.n), {"fn": g.name, "site": el.where(), "store": show(el.e)[:70], "role": why})
+            if not ok:
+                r4.bad("K2:%s:writes-watcher-cursor" % g.name, el.where(), g.name,
+                       "%s moves base->watcher_next: the cursor is shared by the prepare and the check traversal, a write from outside them makes a traversal visit watchers of the other kind or visit one twice" % g.name)
+    rules.append(r4)
     return rules
